@@ -20,7 +20,8 @@ const kmspbPkg = "cloud.google.com/go/kms/apiv1/kmspb"
 func init() {
 	register(&RuleSet{
 		ID: "C20",
-		Explanation: "R1 (ESP on gcpkms.(*Signer).Sign): a nil-error return is reachable only after (a) the equal edge of a comparison between a CRC32C of response.GetSignature() and response.GetSignatureCrc32C(), (b)/(c) GetVerifiedDigestCrc32C / GetVerifiedDataCrc32C returned true or the request field was found nil, (d) the type assertion to *rsa.PSSOptions succeeded and the options compared equal to the literal {EqualsHash, SHA-256}; (e) the request literal always carries both checksums (wrapperspb.Int64 of a CRC32C, the digest checksum over the digest bytes sent) so (b)/(c) cannot be skipped; the table is crc32.MakeTable(crc32.Castagnoli). " +
+		Explanation: "R5c in a listing loop of keys/gcpkms (a loop that contains a List* call of the KMS client) an error variable carried from one page to the next is only ever extended: the value it has on a back edge derives from the value it had at the loop head (multierr.Append(result, …)), so a failure on an earlier page is not overwritten by a clean later page. " +
+			"R1 (ESP on gcpkms.(*Signer).Sign): a nil-error return is reachable only after (a) the equal edge of a comparison between a CRC32C of response.GetSignature() and response.GetSignatureCrc32C(), (b)/(c) GetVerifiedDigestCrc32C / GetVerifiedDataCrc32C returned true or the request field was found nil, (d) the type assertion to *rsa.PSSOptions succeeded and the options compared equal to the literal {EqualsHash, SHA-256}; (e) the request literal always carries both checksums (wrapperspb.Int64 of a CRC32C, the digest checksum over the digest bytes sent) so (b)/(c) cannot be skipped; the table is crc32.MakeTable(crc32.Castagnoli). " +
 			"R5 every function of keys/gcpkms that issues DestroyCryptoKeyVersion returns a non-nil error on every path on which that request failed. " +
 			"R2 (CFG, paging loops = loops in keys/gcpkms around a KeyManagementServiceClient.List* call): the loop-carried page token is this iteration's GetNextPageToken(); every back edge is dominated by the non-empty edge of a comparison of that token with \"\"; every non-error exit of the loop at its own nesting level is dominated by the empty edge (early returns from the inner item loop are allowed). " +
 			"R3 (ESP, pollers): functions returning a key-version name return a nil error only after State == ENABLED was observed on the latest poll (or from another poller); a polling loop has a select on ctx.Done() and every back edge of the loop passes it. " +
@@ -46,6 +47,7 @@ func isKMSClientCall(call ssa.CallInstruction, prefix string) bool {
 }
 
 func runC20(c *Ctx) {
+	c20ErrorsAccumulateAcrossPages(c)
 	sl := flow.NewSlicer(c.P)
 	sl.Transparent = func(f *ssa.Function) bool {
 		switch f.String() {
@@ -1324,4 +1326,105 @@ func c20PageFetcher(c *Ctx, sl *flow.Slicer, f *ssa.Function, call *ssa.Call, to
 		return "the fetcher is never handed to a paging driver"
 	}
 	return ""
+}
+
+// c20ErrorsAccumulateAcrossPages is R5c. See the Explanation.
+func c20ErrorsAccumulateAcrossPages(c *Ctx) {
+	sl := flow.NewSlicer(c.P)
+	errT := types.Universe.Lookup("error").Type()
+	n := 0
+	for _, f := range c.P.RepoFunctions() {
+		if load.RelPkg(f) != "keys/gcpkms" || c.isTestFunc(f) || f.Blocks == nil {
+			continue
+		}
+		for _, L := range naturalLoops(f) {
+			lists := false
+			for b := range L.Body {
+				for _, in := range b.Instrs {
+					if call, ok := in.(ssa.CallInstruction); ok && isKMSClientCall(call, "List") {
+						lists = true
+					}
+				}
+			}
+			if !lists {
+				continue
+			}
+			for _, in := range L.Header.Instrs {
+				phi, ok := in.(*ssa.Phi)
+				if !ok {
+					break
+				}
+				if !types.Identical(phi.Type(), errT) {
+					continue
+				}
+				n++
+				bad := ""
+				for i, e := range phi.Edges {
+					if !L.Body[L.Header.Preds[i]] || e == ssa.Value(phi) {
+						continue
+					}
+					if !sl.Derives(e, func(v ssa.Value) bool { return v == ssa.Value(phi) }) {
+						bad = c.pos(L.Header.Preds[i].Instrs[len(L.Header.Preds[i].Instrs)-1].Pos())
+						if p := e.Pos(); p.IsValid() {
+							bad = c.pos(p)
+						}
+					}
+				}
+				_ = bad
+				c.S.Check(bad == "", "R5c", load.FuncName(f)+":error carried across pages is only extended", c.pos(L.Header.Instrs[0].Pos()), "every value the carried error takes on a back edge derives from its previous value",
+					"the error carried from page to page is replaced ("+bad+") by a value that does not include what it held before: a failure on an earlier page is lost when a later page is clean, and the operation reports success")
+			}
+		}
+	}
+	// the other form of the same loss: the error returned behind the loop was computed inside it, per page, and is not
+	// carried at the loop head at all (`result = m.perPage(…)` — assigned, not appended)
+	for _, f := range c.P.RepoFunctions() {
+		if load.RelPkg(f) != "keys/gcpkms" || c.isTestFunc(f) || f.Blocks == nil {
+			continue
+		}
+		ei := errIndex(f.Signature)
+		if ei < 0 {
+			continue
+		}
+		for _, L := range naturalLoops(f) {
+			lists := false
+			for b := range L.Body {
+				for _, in := range b.Instrs {
+					if call, ok := in.(ssa.CallInstruction); ok && isKMSClientCall(call, "List") {
+						lists = true
+					}
+				}
+			}
+			if !lists {
+				continue
+			}
+			headPhi := map[ssa.Value]bool{}
+			for _, in := range L.Header.Instrs {
+				if phi, ok := in.(*ssa.Phi); ok && types.Identical(phi.Type(), errT) {
+					headPhi[phi] = true
+				}
+			}
+			for _, b := range f.Blocks {
+				ret, ok := b.Instrs[len(b.Instrs)-1].(*ssa.Return)
+				if !ok || L.Body[b] || ei >= len(ret.Results) || isNilK(ret.Results[ei]) {
+					continue
+				}
+				r := ret.Results[ei]
+				fromBody := sl.Derives(r, func(v ssa.Value) bool {
+					in, ok := v.(ssa.Instruction)
+					if !ok || in.Block() == nil || !L.Body[in.Block()] || in.Block() == L.Header {
+						return false
+					}
+					_, isCall := v.(*ssa.Call)
+					return isCall && types.Identical(v.Type(), errT)
+				})
+				carried := sl.Derives(r, func(v ssa.Value) bool { return headPhi[v] })
+				if fromBody && !carried {
+					n++
+					c.S.Bad("R5c", load.FuncName(f)+":error returned behind the listing loop", c.pos(ret.Pos()), "the error returned behind the listing loop is the outcome of the last page only (it is assigned inside the loop and not carried across iterations): a failure on an earlier page is lost when the last page is clean, and the operation reports success")
+				}
+			}
+		}
+	}
+	c.S.Floor("R5c", "error variables carried across the pages of a listing loop", 1, n)
 }
